@@ -15,7 +15,7 @@ PID = "C18"
 def wanted_replay(clause):
     # with the RNG tape in script mode the run must be a function of (stream, tape): every choice of the behaviour has to
     # be requested from the global generators (kind, range), none may be left unconsumed, and the state must follow
-    return clause == "replay.draw_kind_range" or clause.startswith("replay.state.") or clause == "replay.storage"
+    return clause == "replay.draw_range" or clause.startswith("replay.state.") or clause == "replay.storage"
 
 
 def wanted_trace(clause, trace, call):
